@@ -3,6 +3,17 @@ From Coq Require Import ZArith QArith List Bool Lia PeanoNat.
 Require Import SC3.lib.PyNum SC3.gen.Gen_builtins SC3.model.Pattern SC3.proofs.C13_sound.
 Import ListNotations.
 
+Section Meaning.
+Variable rnd : Z -> hist -> Z -> Z -> Z.
+Local Notation snext := (snext rnd).
+Local Notation run := (run rnd).
+Local Notation run_pat := (run_pat rnd).
+Local Notation den := (den rnd).
+Local Notation prod := (prod rnd).
+Local Notation steps := (steps rnd).
+Local Notation isteps := (isteps rnd).
+Local Notation den_sound := (den_sound rnd).
+
 (* ---------------------------------------------------------- run and prod *)
 Lemma run_of_prod : forall s t, prod s t ->
   exists f, forall fuel n, (f <= fuel)%nat -> (length (fst t) < n)%nat ->
@@ -21,11 +32,11 @@ Proof.
   - destruct IHprod as [f IH]. exists (S f). intros fuel n Hf Hn.
     destruct n; [lia|]. destruct fuel; [lia|].
     specialize (IH fuel (S n) ltac:(lia) Hn).
-    cbn [run]. rewrite H. exact IH.
+    cbn [Pattern.run]. rewrite H. exact IH.
   - destruct IHprod as [f IH]. exists (S f). intros fuel n Hf Hn. cbn [fst snd length] in *.
     destruct n; [lia|]. destruct fuel; [lia|].
     specialize (IH fuel n ltac:(lia) ltac:(lia)).
-    cbn [run]. rewrite H.
+    cbn [Pattern.run]. rewrite H.
     destruct e.
     + rewrite IH. reflexivity.
     + rewrite IH. reflexivity.
@@ -91,7 +102,7 @@ Lemma pn_repeats_den : forall k m q (n : nat) l,
   den k Emb q = (l, EStop) -> (n < k)%nat ->
   den (S k) m (Pn q (Fin (Z.of_nat n))) = (concat (repeat l n), EStop).
 Proof.
-  intros k m q n l E Hk. cbn [den].
+  intros k m q n l E Hk. cbn [Pattern.den].
   rewrite (temb_items _ _ (repeat q n)).
   - f_equal. induction n; cbn. reflexivity. rewrite E. cbn. f_equal. apply IHn. lia.
   - intros i q' Hi. assert (Hlt : (i < n)%nat).
@@ -112,7 +123,7 @@ Lemma pser_cyclic_den : forall k m lst (r : nat) off qs,
   (forall q, In q qs -> snd (den k Emb q) = EStop) -> (r < k)%nat ->
   den (S k) m (Pser lst (Fin (Z.of_nat r)) off) = (flat_map (fun q => fst (den k Emb q)) qs, EStop).
 Proof.
-  intros k m lst r off qs Hne Hlen Hq Hs Hk. cbn [den].
+  intros k m lst r off qs Hne Hlen Hq Hs Hk. cbn [Pattern.den].
   apply temb_items; try (rewrite Hlen; assumption); try assumption.
   - intros i q Hi. assert (Hlt : (i < r)%nat).
     { rewrite <- Hlen. apply nth_error_Some. congruence. }
@@ -130,7 +141,7 @@ Lemma pseq_meaning_den : forall k m lst (r : nat) off qs,
   (forall q, In q qs -> snd (den k Emb q) = EStop) -> (r * length lst < k)%nat ->
   den (S k) m (Pseq lst (Fin (Z.of_nat r)) off) = (flat_map (fun q => fst (den k Emb q)) qs, EStop).
 Proof.
-  intros k m lst r off qs Hne Hlen Hq Hs Hk. cbn [den].
+  intros k m lst r off qs Hne Hlen Hq Hs Hk. cbn [Pattern.den].
   assert (Hn : length lst <> 0%nat) by (destruct lst; cbn; congruence).
   apply temb_items; try (rewrite Hlen; assumption); try assumption.
   - intros i q Hi. assert (Hlt : (i < r * length lst)%nat).
@@ -148,13 +159,13 @@ Qed.
 Lemma inf_truncation_den : forall k m lst off q (r : Z), (Z.of_nat k <= r)%Z ->
   den (S k) m (Pn q Inf) = den (S k) m (Pn q (Fin r)) /\
   den (S k) m (Pser lst Inf off) = den (S k) m (Pser lst (Fin r) off) /\
-  den (S k) m (Pseq lst Inf off) = den (S k) m (Pseq lst (Fin r) off).
+  (lst <> [] -> den (S k) m (Pseq lst Inf off) = den (S k) m (Pseq lst (Fin r) off)).
 Proof.
-  intros k m lst off q r Hr. cbn [den]. repeat split; apply temb_ext; intros i Hi; cbn [item_at].
+  intros k m lst off q r Hr. cbn [Pattern.den]. repeat split; [| |intros Hne]; apply temb_ext; intros i Hi; cbn [item_at].
   - cbn. replace (Z.of_nat i <? r)%Z with true by (symmetry; apply Z.ltb_lt; lia). reflexivity.
-  - destruct lst; [reflexivity|]. cbn [in_reps].
+  - cbn [in_reps].
     replace (Z.of_nat i <? r)%Z with true by (symmetry; apply Z.ltb_lt; lia). reflexivity.
-  - destruct (length lst) as [|n'] eqn:En; [reflexivity|]. cbn [in_reps].
+  - destruct (length lst) as [|n'] eqn:En; [destruct lst; [congruence|discriminate]|]. cbn [in_reps].
     assert ((i / S n' <= i)%nat) by (apply Nat.div_le_upper_bound; nia).
     replace (Z.of_nat (i / S n') <? r)%Z with true by (symmetry; apply Z.ltb_lt; lia). reflexivity.
 Qed.
@@ -265,12 +276,12 @@ Lemma isteps_independent : forall sched s1 s2,
                         steps (length (filter negb sched)) s2).
 Proof.
   induction sched as [|b sched IH]; intros s1 s2. reflexivity.
-  destruct b; cbn [isteps filter negb length steps].
-  - destruct (snext s1) eqn:E; rewrite IH; cbn [steps]; try rewrite E; try reflexivity.
+  destruct b; cbn [Pattern.isteps filter negb length Pattern.steps].
+  - destruct (snext s1) eqn:E; rewrite IH; cbn [Pattern.steps]; try rewrite E; try reflexivity.
     + destruct (length (filter (fun b => b) sched)); cbn; rewrite ?E; reflexivity.
     + destruct (length (filter (fun b => b) sched)); cbn; rewrite ?E; reflexivity.
     + destruct (steps _ s); reflexivity.
-  - destruct (snext s2) eqn:E; rewrite IH; cbn [steps]; try rewrite E; try reflexivity.
+  - destruct (snext s2) eqn:E; rewrite IH; cbn [Pattern.steps]; try rewrite E; try reflexivity.
     + destruct (length (filter negb sched)); cbn; rewrite ?E; reflexivity.
     + destruct (length (filter negb sched)); cbn; rewrite ?E; reflexivity.
     + destruct (steps _ s); reflexivity.
@@ -279,13 +290,13 @@ Qed.
 (* --------------------------------------- the same facts stated on patterns *)
 Lemma plen_truncates_l k m q n l e : den k Str q = (l, e) -> (Z.to_nat n <= length l)%nat ->
   den (S k) m (Plen q n) = (firstn (Z.to_nat n) l, EStop).
-Proof. intros H Hn. cbn [den]. rewrite H. apply tlen_firstn. exact Hn. Qed.
+Proof. intros H Hn. cbn [Pattern.den]. rewrite H. apply tlen_firstn. exact Hn. Qed.
 Lemma plen_short_l k m q n l e : den k Str q = (l, e) -> (length l < Z.to_nat n)%nat ->
   den (S k) m (Plen q n) = (l, e).
-Proof. intros H Hn. cbn [den]. rewrite H. apply tlen_short. exact Hn. Qed.
+Proof. intros H Hn. cbn [Pattern.den]. rewrite H. apply tlen_short. exact Hn. Qed.
 Lemma pdrop_drops_l k m q n l e : den k Str q = (l, e) ->
   den (S k) m (Pdrop q n) = (skipn (Z.to_nat n) l, e).
-Proof. intros H. cbn [den]. rewrite H. apply tdrop_skipn. Qed.
+Proof. intros H. cbn [Pattern.den]. rewrite H. apply tdrop_skipn. Qed.
 Lemma den_stutter_unfold k m q n :
   den (S k) m (Pstutter q n) =
   tstut (fst (den k Str q)) (snd (den k Str q)) (fst (den k Str n)) (snd (den k Str n)).
@@ -302,19 +313,160 @@ Lemma binop_l k m o a b la ea lb eb : den k Str a = (la, ea) -> den k Str b = (l
   exists l', den (S k) m (Pbinop o a b) = (l', if (length la <=? length lb)%nat then ea else eb) /\
              length l' = Nat.min (length la) (length lb) /\
              map Some l' = map (fun ab => binop o (fst ab) (snd ab)) (combine la lb).
-Proof. intros Ha Hb H. cbn [den]. rewrite Ha, Hb. apply tbin_shortest. exact H. Qed.
+Proof. intros Ha Hb H. cbn [Pattern.den]. rewrite Ha, Hb. apply tbin_shortest. exact H. Qed.
 Lemma pconst_l k m q sum tol out : is_ok sum = true ->
   den (S k) m (Pconst q sum tol) = (out, EStop) -> (qsum out == toQ sum)%Q.
 Proof.
-  intros Hs H. cbn [den] in H. destruct (den k Str q) as [l e]. cbn [fst snd] in H.
+  intros Hs H. cbn [Pattern.den] in H. destruct (den k Str q) as [l e]. cbn [fst snd] in H.
   pose proof (pconst_sum sum tol Hs l e (I 0) out eq_refl H) as P. cbn [toQ] in P.
   rewrite <- P. change (inject_Z 0) with 0%Q. ring.
 Qed.
 Lemma pswitch_l k m lst w iv lw ew z q : den k Str w = (iv :: lw, ew) ->
   as_index iv = Some z -> wrap_at lst z = Some q ->
   den (S k) m (Pswitch lst w) = tapp (den k Emb q) (tswitch (den k Emb) lst lw ew).
-Proof. intros H H1 H2. cbn [den]. rewrite H. cbn [fst snd]. apply (tswitch_in_place _ _ _ _ _ z q); assumption. Qed.
+Proof. intros H H1 H2. cbn [Pattern.den]. rewrite H. cbn [fst snd]. apply (tswitch_in_place _ _ _ _ _ z q); assumption. Qed.
 Lemma streams_independent_l sched p :
   isteps sched (init Str p) (init Str p) =
   (steps (length (filter (fun b => b) sched)) (init Str p), steps (length (filter negb sched)) (init Str p)).
 Proof. apply isteps_independent. Qed.
+
+(* ------------------------------------------- determinism of the iterator *)
+Lemma prod_compat : forall s t, prod s t -> snd t <> EMore ->
+  forall t', prod s t' -> (snd t' = EMore /\ exists l', fst t = fst t' ++ l') \/ t' = t.
+Proof.
+  intros s t H. induction H as [s|s Hs|s Hs|s s1 t Hs Hp IH|s s1 v l e Hs Hp IH]; intros Hc t' H'; cbn [fst snd] in *.
+  - congruence.
+  - inversion H' as [?|? Hs'|? Hs'|? ? ? Hs' Hp'|? ? ? ? ? Hs' Hp']; subst; try congruence.
+    left. split. reflexivity. exists []. reflexivity. right. reflexivity.
+  - inversion H' as [?|? Hs'|? Hs'|? ? ? Hs' Hp'|? ? ? ? ? Hs' Hp']; subst; try congruence.
+    left. split. reflexivity. exists []. reflexivity. right. reflexivity.
+  - inversion H' as [?|? Hs'|? Hs'|? ? ? Hs' Hp'|? ? ? ? ? Hs' Hp']; subst; try congruence.
+    + left. split. reflexivity. exists (fst t). reflexivity.
+    + rewrite Hs in Hs'. inversion Hs'; subst. apply IH; assumption.
+  - inversion H' as [?|? Hs'|? Hs'|? ? ? Hs' Hp'|? ? ? ? ? Hs' Hp']; subst; try congruence.
+    + left. split. reflexivity. exists (v :: l). reflexivity.
+    + rewrite Hs in Hs'. inversion Hs'; subst.
+      destruct (IH Hc _ Hp') as [[E (l' & El)]|E]; cbn [fst snd] in *.
+      * left. split. exact E. exists l'. rewrite El. reflexivity.
+      * right. inversion E; subst. reflexivity.
+Qed.
+Lemma prod_complete_unique s t t' : prod s t -> snd t <> EMore -> prod s t' -> snd t' <> EMore -> t' = t.
+Proof.
+  intros H Hc H' Hc'. destruct (prod_compat s t H Hc t' H') as [[E _]|E]. congruence. exact E.
+Qed.
+
+(* ---------------------------------- two streams produce the same sequence *)
+Lemma steps_prefix : forall n m s, (n <= m)%nat -> exists l', fst (steps m s) = fst (steps n s) ++ l'.
+Proof.
+  induction n as [|n IH]; intros m s H.
+  - exists (fst (steps m s)). reflexivity.
+  - destruct m as [|m]; [lia|]. cbn [Pattern.steps]. destruct (snext s) as [| |s'|v s'].
+    + exists []. reflexivity.
+    + exists []. reflexivity.
+    + apply IH. lia.
+    + destruct (IH m s' ltac:(lia)) as [l' E].
+      destruct (steps m s') as [lm sm], (steps n s') as [ln sn]. cbn [fst] in *. exists l'. rewrite E. reflexivity.
+Qed.
+Lemma run2_same_sequence sched p :
+  let '(l1, l2) := run2 rnd sched p in (exists l', l2 = l1 ++ l') \/ (exists l', l1 = l2 ++ l').
+Proof.
+  unfold run2. rewrite isteps_independent.
+  set (n1 := length (filter (fun b => b) sched)). set (n2 := length (filter negb sched)).
+  destruct (Nat.le_ge_cases n1 n2) as [H|H].
+  - destruct (steps_prefix n1 n2 (init Str p) H) as [l' E].
+    destruct (steps n1 (init Str p)), (steps n2 (init Str p)). cbn [fst] in E. left. exists l'. exact E.
+  - destruct (steps_prefix n2 n1 (init Str p) H) as [l' E].
+    destruct (steps n1 (init Str p)), (steps n2 (init Str p)). cbn [fst] in E. right. exists l'. exact E.
+Qed.
+
+(* ------------------------------------------------------- Pclump in groups *)
+Fixpoint chunk (fuel n : nat) (l : list val) : list (list val) :=
+  match fuel with
+  | O => []
+  | S f => match l with [] => [] | _ => firstn n l :: chunk f n (skipn n l) end
+  end.
+Lemma grab_spec : forall k acc l,
+  grab k acc l = (acc ++ firstn k l, if (k <=? length l)%nat then Some (skipn k l) else None).
+Proof.
+  induction k as [|k IH]; intros acc l; cbn.
+  - rewrite app_nil_r. reflexivity.
+  - destruct l as [|v l]; cbn. rewrite app_nil_r. reflexivity.
+    rewrite IH, <- app_assoc. reflexivity.
+Qed.
+Lemma tclump_const_chunks (n : nat) : (1 <= n)%nat -> forall m f l, (length l < m)%nat -> (length l <= f)%nat ->
+  tclump (repeat (VN (I (Z.of_nat n))) m) EMore l EStop = (map VL (chunk f n l), EStop).
+Proof.
+  intros Hn. induction m as [|m IH]; intros f l Hm Hf; [lia|].
+  cbn [repeat tclump as_int]. rewrite Nat2Z.id, grab_spec. cbn [app].
+  destruct l as [|v l].
+  - destruct n; [lia|]. cbn. destruct f; reflexivity.
+  - destruct f as [|f]; [cbn in Hf; lia|]. cbn [chunk map].
+    destruct (n <=? length (v :: l))%nat eqn:E.
+    + apply Nat.leb_le in E. rewrite (IH f (skipn n (v :: l))).
+      * reflexivity.
+      * rewrite skipn_length. cbn [length] in *. lia.
+      * rewrite skipn_length. cbn [length] in *. lia.
+    + apply Nat.leb_gt in E. rewrite firstn_all2 by lia. rewrite skipn_all2 by lia.
+      destruct f; reflexivity.
+Qed.
+Lemma chunk_spec (n : nat) : (1 <= n)%nat -> forall f l, (length l <= f)%nat ->
+  concat (chunk f n l) = l /\
+  Forall (fun g => (1 <= length g <= n)%nat) (chunk f n l) /\
+  Forall (fun g => length g = n) (removelast (chunk f n l)).
+Proof.
+  intros Hn. induction f as [|f IH]; intros l Hf.
+  - destruct l; [|cbn in Hf; lia]. repeat split; constructor.
+  - destruct l as [|v l]. repeat split; constructor.
+    cbn [chunk]. destruct (IH (skipn n (v :: l))) as (C1 & C2 & C3).
+    { rewrite skipn_length. cbn [length] in *. lia. }
+    repeat split.
+    + cbn [concat]. rewrite C1. apply firstn_skipn.
+    + constructor; [|exact C2]. rewrite firstn_length. destruct n; [lia|]. cbn. lia.
+    + destruct (chunk f n (skipn n (v :: l))) as [|g gs] eqn:E. constructor.
+      change (removelast (firstn n (v :: l) :: g :: gs)) with (firstn n (v :: l) :: removelast (g :: gs)).
+      constructor; [|exact C3].
+      rewrite firstn_length. apply Nat.min_l.
+      destruct (Nat.le_gt_cases n (length (v :: l))) as [Hle|Hgt]; [exact Hle|].
+      rewrite skipn_all2 in E by lia. destruct f; discriminate E.
+Qed.
+
+(* ------------------------------------------------------ Pslide in windows *)
+Definition witem (d : pat -> trace) (l : list pat) (idx : Z) : list val :=
+  match wrap_at l idx with Some q => fst (d q) | None => [] end.
+Definition window (d : pat -> trace) (l : list pat) (pos : Z) (j len : nat) : list val :=
+  flat_map (fun jj => witem d l (pos + Z.of_nat jj)) (seq j len).
+Fixpoint windows (d : pat -> trace) (l : list pat) (len : nat) (pos step : Z) (r : nat) : list val :=
+  match r with
+  | O => []
+  | S r' => window d l pos 0 len ++ windows d l len (pos + step) step r'
+  end.
+Lemma wrap_at_in {A} (l : list A) i q : wrap_at l i = Some q -> In q l.
+Proof. unfold wrap_at. destruct l. discriminate. apply nth_error_In. Qed.
+Lemma twin_window (d : pat -> trace) l z K : (forall q, In q l -> snd (d q) = EStop) -> l <> [] ->
+  forall rem j, twin d l true (I z) j rem K = tpre (window d l z j rem) K.
+Proof.
+  intros Hc Hne. induction rem as [|rem IH]; intros j.
+  - cbn. rewrite tpre_nil. reflexivity.
+  - cbn [twin]. unfold window. cbn [seq flat_map]. unfold witem at 1.
+    destruct (wrap_at l (z + Z.of_nat j)) as [q|] eqn:E.
+    + rewrite IH. pose proof (Hc q (wrap_at_in _ _ _ E)) as Hq. destruct (d q) as [lq eq]. cbn in Hq. subst eq.
+      unfold tapp, tpre, window. cbn [fst snd]. rewrite app_assoc. reflexivity.
+    + exfalso. unfold wrap_at in E. destruct l as [|x l']; [congruence|].
+      apply nth_error_None in E.
+      assert (0 <= (z + Z.of_nat j) mod Z.of_nat (length (x :: l')) < Z.of_nat (length (x :: l')))%Z
+        by (apply Z.mod_pos_bound; cbn [length]; lia).
+      lia.
+Qed.
+Lemma tslide_windows (d : pat -> trace) l (len : nat) (step : Z) :
+  (forall q, In q l -> snd (d q) = EStop) -> l <> [] ->
+  forall r m pos, (r <= m)%nat ->
+  tslide d l true (Some r) (I pos) (repeat (VN (I (Z.of_nat len))) m) EMore (repeat (VN (I step)) m) EMore
+  = (windows d l len pos step r, EStop).
+Proof.
+  intros Hc Hne. induction r as [|r IH]; intros m pos Hm.
+  - destruct m; reflexivity.
+  - destruct m as [|m]; [lia|]. cbn [repeat tslide cnt_zero as_index as_num nadd lift2 cnt_dec pred].
+    rewrite Nat2Z.id, twin_window by assumption.
+    rewrite IH by lia. unfold tpre. cbn [fst snd windows]. reflexivity.
+Qed.
+End Meaning.
